@@ -83,6 +83,9 @@ def run_threaded(ctx):
     models(ctx)
 
     combos = [(b, r, p) for b in BACKENDS for r in REUSE for p in PHASES]
+    # the loop computes its sleep when the earliest deadline has already passed (it was held
+    # before ares_timeout() until then): an expired deadline must not read as "no deadline"
+    combos += [(b, "overdue", "timeout") for b in BACKENDS]
     ctx.log("C07b: %d scenarios (backend x reuse x phase), silent server" % len(combos))
     results = thrlib.pmap(lambda c: scenario(exe, ctx, *c), combos, workers=8)
 
@@ -160,6 +163,9 @@ def run_threaded(ctx):
         if rule == "c07.outwait.never":
             observed_never.add((r, p))
             sig = ("c07.evthread.idle_reuse.nowake.%s" % p) if r == "idle" else ("c07.evthread.%s.never.%s" % (r, p))
+        elif rule == "c07.outwait.unlimited_sleep_with_request_outstanding":
+            observed_never.add((r, p))
+            sig = "c07.evthread.%s.unlimited_sleep.%s" % (r, p)
         elif rule == "c07.outwait.late":
             observed_late.add((r, p))
             sig = "c07.evthread.%s.late.%s" % (r, p)
